@@ -39,6 +39,9 @@ def strategy(draw, cells):
     c["pp_both"] = draw(st.one_of(st.just(0.0), gen.loguniform(1e-4, 1e-2), gen.loguniform(1e-4, 1e-2)))  # 0 kPa IS a stated pressure
     c["lone"] = draw(st.integers(1, 2))  # which component has the single experiment without Ea (listed first or after the other)
     c["x"] = draw(gen.uniform(0.15, 0.85))
+    if cls not in ("both-permeate",) and draw(st.integers(0, 3)) == 0:
+        c["x"] = draw(st.sampled_from([0.0, 1.0]))  # pure compositions are valid arguments too
+    c["t_offset"] = draw(st.sampled_from([11.0, 11.0, 1e-3, 1e-6]))  # "another temperature" may be very close to the experiment's
     c["other_model_params"] = draw(gen.uniquac_params())
     c["uq_consts"] = [draw(gen.synthetic_component("S1"))["uq"], draw(gen.synthetic_component("S2"))["uq"]]
     return c
@@ -169,7 +172,7 @@ def check(case):
                 lone = {"name": "M", k_lone: [dict(e, Ea=None)], k_other: others}
                 stated = {"name": "M", k_lone: [dict(e, Ea=30000.0)], k_other: others}
                 m_bad, m_ok = build.membrane(lone, s.mix), build.membrane(stated, s.mix)
-                t_other = e["T"] + 11.0
+                t_other = e["T"] + case.get("t_offset", 11.0)
                 c_lone = s.mix.first_component if k_lone == "e1" else s.mix.second_component
                 classes.append("lone=%s" % k_lone)
                 if entry == "activation-energy":
